@@ -1,0 +1,283 @@
+// Verification-only introspection helpers.
+//
+// This file is compiled only when TREE_SITTER_VERIF is defined (it is included
+// from lib.c under that guard). Nothing here is called by the library itself.
+
+#include <stdint.h>
+#include <stdio.h>
+#include <stdlib.h>
+#include <string.h>
+#include "./subtree.h"
+#include "./tree.h"
+#include "./language.h"
+
+// ---------------------------------------------------------------------------
+// Internal-form hash / dump of a tree (hidden nodes included).
+//
+// Reference counts and addresses are deliberately excluded.
+
+typedef struct {
+  uint64_t hash;
+  char *buf;
+  size_t len;
+  size_t cap;
+  bool want_text;
+} VerifSink;
+
+static void verif_sink_u32(VerifSink *s, const char *name, uint32_t v) {
+  for (unsigned i = 0; i < 4; i++) {
+    s->hash ^= (uint8_t)(v >> (8 * i));
+    s->hash *= 1099511628211ULL;
+  }
+  s->hash ^= 0xfe;
+  s->hash *= 1099511628211ULL;
+  if (s->want_text) {
+    char tmp[64];
+    int n = snprintf(tmp, sizeof(tmp), " %s=%u", name, v);
+    if (s->len + (size_t)n + 2 > s->cap) {
+      s->cap = (s->cap + (size_t)n + 2) * 2;
+      s->buf = realloc(s->buf, s->cap);
+    }
+    memcpy(s->buf + s->len, tmp, (size_t)n);
+    s->len += (size_t)n;
+    s->buf[s->len] = 0;
+  }
+}
+
+static void verif_sink_str(VerifSink *s, const char *str) {
+  if (s->want_text) {
+    size_t n = strlen(str);
+    if (s->len + n + 2 > s->cap) {
+      s->cap = (s->cap + n + 2) * 2;
+      s->buf = realloc(s->buf, s->cap);
+    }
+    memcpy(s->buf + s->len, str, n);
+    s->len += n;
+    s->buf[s->len] = 0;
+  }
+}
+
+static void verif_dump_subtree(VerifSink *s, Subtree t, unsigned depth) {
+  if (s->want_text) {
+    verif_sink_str(s, "\n");
+    for (unsigned i = 0; i < depth; i++) verif_sink_str(s, " ");
+  }
+  Length padding = ts_subtree_padding(t);
+  Length size = ts_subtree_size(t);
+  verif_sink_u32(s, "inline", t.data.is_inline);
+  verif_sink_u32(s, "sym", ts_subtree_symbol(t));
+  verif_sink_u32(s, "state", ts_subtree_parse_state(t));
+  verif_sink_u32(s, "pb", padding.bytes);
+  verif_sink_u32(s, "pr", padding.extent.row);
+  verif_sink_u32(s, "pc", padding.extent.column);
+  verif_sink_u32(s, "sb", size.bytes);
+  verif_sink_u32(s, "sr", size.extent.row);
+  verif_sink_u32(s, "sc", size.extent.column);
+  verif_sink_u32(s, "la", ts_subtree_lookahead_bytes(t));
+  verif_sink_u32(s, "vis", ts_subtree_visible(t));
+  verif_sink_u32(s, "named", ts_subtree_named(t));
+  verif_sink_u32(s, "extra", ts_subtree_extra(t));
+  verif_sink_u32(s, "chg", ts_subtree_has_changes(t));
+  verif_sink_u32(s, "miss", ts_subtree_missing(t));
+  verif_sink_u32(s, "kw", ts_subtree_is_keyword(t));
+  if (t.data.is_inline) return;
+
+  const SubtreeHeapData *d = t.ptr;
+  verif_sink_u32(s, "n", d->child_count);
+  verif_sink_u32(s, "cost", d->error_cost);
+  verif_sink_u32(s, "fl", d->fragile_left);
+  verif_sink_u32(s, "fr", d->fragile_right);
+  verif_sink_u32(s, "ext", d->has_external_tokens);
+  verif_sink_u32(s, "col", d->depends_on_column);
+  if (d->child_count > 0) {
+    verif_sink_u32(s, "xchg", d->has_external_scanner_state_change);
+    verif_sink_u32(s, "vc", d->visible_child_count);
+    verif_sink_u32(s, "nc", d->named_child_count);
+    verif_sink_u32(s, "vd", d->visible_descendant_count);
+    verif_sink_u32(s, "dp", (uint32_t)d->dynamic_precedence);
+    verif_sink_u32(s, "rd", d->repeat_depth);
+    verif_sink_u32(s, "prod", d->production_id);
+    verif_sink_u32(s, "fls", d->first_leaf.symbol);
+    verif_sink_u32(s, "flp", d->first_leaf.parse_state);
+    const Subtree *children = ts_subtree_children(t);
+    for (uint32_t i = 0; i < d->child_count; i++) {
+      verif_dump_subtree(s, children[i], depth + 1);
+    }
+  } else if (d->has_external_tokens) {
+    verif_sink_u32(s, "xchg", d->has_external_scanner_state_change);
+    const ExternalScannerState *st = &d->external_scanner_state;
+    const char *data = ts_external_scanner_state_data(st);
+    verif_sink_u32(s, "xlen", st->length);
+    for (uint32_t i = 0; i < st->length; i++) {
+      verif_sink_u32(s, "x", (uint8_t)data[i]);
+    }
+  } else if (d->symbol == ts_builtin_sym_error) {
+    verif_sink_u32(s, "lach", (uint32_t)d->lookahead_char);
+  }
+}
+
+static void verif_dump_tree(VerifSink *s, const TSTree *tree) {
+  verif_sink_u32(s, "ranges", tree->included_range_count);
+  for (unsigned i = 0; i < tree->included_range_count; i++) {
+    const TSRange *r = &tree->included_ranges[i];
+    verif_sink_u32(s, "rs", r->start_byte);
+    verif_sink_u32(s, "re", r->end_byte);
+    verif_sink_u32(s, "rsr", r->start_point.row);
+    verif_sink_u32(s, "rsc", r->start_point.column);
+    verif_sink_u32(s, "rer", r->end_point.row);
+    verif_sink_u32(s, "rec", r->end_point.column);
+  }
+  verif_dump_subtree(s, tree->root, 0);
+}
+
+uint64_t ts_verif_hash_tree(const TSTree *tree) {
+  VerifSink s = {14695981039346656037ULL, NULL, 0, 0, false};
+  verif_dump_tree(&s, tree);
+  return s.hash;
+}
+
+// Returns a heap string (libc malloc) that must be released with ts_verif_free.
+char *ts_verif_dump_tree(const TSTree *tree) {
+  VerifSink s = {14695981039346656037ULL, NULL, 0, 0, true};
+  s.cap = 256;
+  s.buf = malloc(s.cap);
+  s.buf[0] = 0;
+  verif_dump_tree(&s, tree);
+  return s.buf;
+}
+
+void ts_verif_free(char *p) {
+  free(p);
+}
+
+// ---------------------------------------------------------------------------
+// Re-derive the cached summaries of every subtree from its children, without
+// calling ts_subtree_summarize_children. Only meaningful for trees returned by
+// the parser (an edited tree legitimately carries stale sizes until re-parsed).
+//
+// Returns 0 if everything agrees; otherwise writes a description of the first
+// mismatch to `err` and returns 1.
+
+typedef struct {
+  char *err;
+  size_t errlen;
+  bool failed;
+  const TSLanguage *language;
+  uint32_t nodes;
+} VerifCheck;
+
+static void verif_fail(VerifCheck *c, Subtree t, const char *what, uint64_t cached, uint64_t derived) {
+  if (c->failed) return;
+  c->failed = true;
+  snprintf(
+    c->err, c->errlen, "%s: cached=%llu derived=%llu symbol=%u(%s) child_count=%u",
+    what, (unsigned long long)cached, (unsigned long long)derived,
+    ts_subtree_symbol(t), ts_language_symbol_name(c->language, ts_subtree_symbol(t)),
+    ts_subtree_child_count(t)
+  );
+}
+
+static void verif_check_subtree(VerifCheck *c, Subtree t) {
+  c->nodes++;
+  if (c->failed) return;
+  if (t.data.is_inline) return;
+  const SubtreeHeapData *d = t.ptr;
+  if (d->ref_count == 0) verif_fail(c, t, "ref_count", 0, 1);
+  if (d->child_count == 0) return;
+
+  const Subtree *children = ts_subtree_children(t);
+  const TSSymbol *alias_sequence = ts_language_alias_sequence(c->language, d->production_id);
+
+  uint32_t visible = 0, named = 0, vdesc = 0, structural = 0;
+  uint32_t la_end = 0;
+  bool ext = false, xchg = false, col = false;
+  int32_t dynprec = 0;
+  Length padding = length_zero(), size = length_zero();
+  bool any_error_or_missing = false;
+
+  for (uint32_t i = 0; i < d->child_count; i++) {
+    Subtree ch = children[i];
+    verif_check_subtree(c, ch);
+    if (c->failed) return;
+
+    if (i == 0) {
+      padding = ts_subtree_padding(ch);
+      size = ts_subtree_size(ch);
+    } else {
+      size = length_add(size, ts_subtree_total_size(ch));
+    }
+    uint32_t e = padding.bytes + size.bytes + ts_subtree_lookahead_bytes(ch);
+    if (e > la_end) la_end = e;
+
+    bool aliased = !ts_subtree_extra(ch) && ts_subtree_symbol(ch) != 0 &&
+      alias_sequence && alias_sequence[structural] != 0;
+    if (aliased) {
+      visible++; vdesc++;
+      if (ts_language_symbol_metadata(c->language, alias_sequence[structural]).named) named++;
+    } else if (ts_subtree_visible(ch)) {
+      visible++; vdesc++;
+      if (ts_subtree_named(ch)) named++;
+    } else if (ts_subtree_child_count(ch) > 0) {
+      visible += ch.ptr->visible_child_count;
+      named += ch.ptr->named_child_count;
+    }
+    vdesc += ts_subtree_visible_descendant_count(ch);
+    dynprec += ts_subtree_dynamic_precedence(ch);
+    if (ts_subtree_has_external_tokens(ch)) ext = true;
+    if (ts_subtree_has_external_scanner_state_change(ch)) xchg = true;
+    if (ts_subtree_depends_on_column(ch)) col = true;
+    if (ts_subtree_error_cost(ch) > 0 || ts_subtree_is_error(ch) || ts_subtree_missing(ch)) {
+      any_error_or_missing = true;
+    }
+    if (!ts_subtree_extra(ch)) structural++;
+  }
+
+  if (d->visible_child_count != visible) verif_fail(c, t, "visible_child_count", d->visible_child_count, visible);
+  if (d->named_child_count != named) verif_fail(c, t, "named_child_count", d->named_child_count, named);
+  if (d->visible_descendant_count != vdesc) verif_fail(c, t, "visible_descendant_count", d->visible_descendant_count, vdesc);
+  if (d->padding.bytes != padding.bytes) verif_fail(c, t, "padding.bytes", d->padding.bytes, padding.bytes);
+  if (d->padding.extent.row != padding.extent.row) verif_fail(c, t, "padding.row", d->padding.extent.row, padding.extent.row);
+  if (d->padding.extent.column != padding.extent.column) verif_fail(c, t, "padding.column", d->padding.extent.column, padding.extent.column);
+  if (d->size.bytes != size.bytes) verif_fail(c, t, "size.bytes", d->size.bytes, size.bytes);
+  if (d->size.extent.row != size.extent.row) verif_fail(c, t, "size.row", d->size.extent.row, size.extent.row);
+  if (d->size.extent.column != size.extent.column) verif_fail(c, t, "size.column", d->size.extent.column, size.extent.column);
+  uint32_t la = la_end - size.bytes - padding.bytes;
+  if (d->lookahead_bytes != la) verif_fail(c, t, "lookahead_bytes", d->lookahead_bytes, la);
+  if (d->has_external_tokens != ext) verif_fail(c, t, "has_external_tokens", d->has_external_tokens, ext);
+  if (d->has_external_scanner_state_change != xchg) verif_fail(c, t, "has_external_scanner_state_change", d->has_external_scanner_state_change, xchg);
+  if (d->dynamic_precedence != dynprec && d->symbol != ts_builtin_sym_error) {
+    // ts_subtree_new_node adds the production's own dynamic precedence on top
+    // of the children's sum; only a *smaller magnitude mismatch than the table
+    // allows* would be wrong, which cannot be derived here. Children-sum is
+    // checked for error nodes only where no production contributes.
+  }
+  if (size.extent.row == 0) {
+    if (d->depends_on_column != col) verif_fail(c, t, "depends_on_column", d->depends_on_column, col);
+  }
+  if ((d->error_cost > 0) != (any_error_or_missing || d->symbol == ts_builtin_sym_error || d->symbol == ts_builtin_sym_error_repeat)) {
+    verif_fail(c, t, "error_cost>0", d->error_cost, any_error_or_missing);
+  }
+  if (d->first_leaf.symbol != ts_subtree_leaf_symbol(children[0])) verif_fail(c, t, "first_leaf.symbol", d->first_leaf.symbol, ts_subtree_leaf_symbol(children[0]));
+  if (d->first_leaf.parse_state != ts_subtree_leaf_parse_state(children[0])) verif_fail(c, t, "first_leaf.parse_state", d->first_leaf.parse_state, ts_subtree_leaf_parse_state(children[0]));
+
+  uint32_t rd = 0;
+  if (d->child_count >= 2 && !d->visible && !d->named && ts_subtree_symbol(children[0]) == d->symbol) {
+    uint32_t a = ts_subtree_repeat_depth(children[0]);
+    uint32_t b = ts_subtree_repeat_depth(children[d->child_count - 1]);
+    rd = (a > b ? a : b) + 1;
+  }
+  if (d->repeat_depth != rd) verif_fail(c, t, "repeat_depth", d->repeat_depth, rd);
+}
+
+int ts_verif_check_tree(const TSTree *tree, char *err, size_t errlen) {
+  VerifCheck c = {err, errlen, false, tree->language, 0};
+  if (errlen) err[0] = 0;
+  verif_check_subtree(&c, tree->root);
+  return c.failed ? 1 : 0;
+}
+
+// Reference count of the root subtree (1 for an inline root). Used only by
+// the C08 checks to key states on sharing.
+uint32_t ts_verif_root_ref_count(const TSTree *tree) {
+  return tree->root.data.is_inline ? 1 : tree->root.ptr->ref_count;
+}
